@@ -46,6 +46,8 @@ PROPS = {
              extra_as=["states reachable by replicas with distinct actors; LWWReg with unique markers"] + MAP_AS),
     "C03": P([t for t in ALL_REPL if t not in ("list", "vclock")], CONV_FP + ["*.reset"], quick=500, streams=("structured",),
              extra_as=["knowledge sets closed under per-actor order"] + MAP_AS),
+    "C07": P(["orswot", "mvreg", "mapmv", "mapor", "mapmm"], READS + ["ctx.*"] + ["*.apply", "*.merge"], streams=("structured",),
+             extra_as=["top-level replicas only; Map: structural facts for every state reachable by well-formed ops and merges, the 'exactly the surviving witnesses' clause for Map inherits the status of C05"]),
     "C08": P(["orswot", "mvreg", "mapmv", "mapor", "mapmm", "gcounter", "pncounter", "gset", "glist", "merkle", "list"], CONV_FP + ["*.reset"], quick=500, streams=("structured",),
              extra_as=["each actor's ops delivered in issue order, otherwise arbitrary"] + MAP_AS),
     "C09": P(ALL_REPL, CONV_FP + ["*.reset"], quick=500, streams=("structured",), extra_as=MAP_AS),
@@ -53,10 +55,16 @@ PROPS = {
              extra_as=["Map::validate_op violates this property on the unchanged tree: known finding K1"]),
     "C17": P(["orswot", "lww", "mapmv", "mapor", "mapmm"], ["*.validate_merge", "*.apply", "*.merge"] + API_GEN, quick=600, streams=("structured", "malformed"),
              extra_as=["Orswot::validate_merge rejects correct use of add_all: known finding K2"]),
+    "C19": P(ALL_REPL, ["serde"], quick=500, streams=("structured",),
+             extra_tb=["serde derive + serde_json modelled by coq/model/Serde.v (JSON tree; integer map keys abstracted as KNum; 32-byte hashes as one number); tied to the real crates by comparing real serde_json output with enc/dec on every sampled state"],
+             extra_as=["REFUTED for states holding a pending remove (K3)", "u64 ranges not modelled"]),
     "C20": P(ALL_REPL, CONV_FP + ["*.reset", "mvreg.eq"], quick=500, streams=("structured",), extra_as=MAP_AS),
     "C04": P(["orswot"], ["orswot.apply", "orswot.merge", "orswot.validate_op"] + ["orswot." + r[2:] for r in READS] + ["orswot.add", "orswot.add_all", "orswot.rm", "orswot.rm_all", "ctx.*"],
              extra_as=["each actor's adds are delivered in issue order (the documented contract); removes in any order",
                        "ops are generated through the public API from reads of the generating replica"]),
+    "C05": P(["mapmv", "mapor", "mapmm"], ["map*.*", "orswot.reset", "mvreg.reset", "orswot.apply", "mvreg.apply", "orswot.merge", "mvreg.merge", "ctx.*", "orswot.add", "orswot.rm", "orswot.rm_all", "mvreg.write", "orswot.contains", "orswot.read"],
+             extra_as=["REFUTED on the unchanged tree (T1, T2, T3): the check relies on the correspondence of the faithful model, the Coq refutation witnesses, and the monitors' known-finding classes; no positive refinement theorem for any Map fragment"],
+             undischarged=["C05_map_claim: 'key present iff an applied update is not covered by an applied remove; value = the surviving nested updates' outside T1/T2/T3 (monitored only)"]),
     "C06": P(["mvreg"], ["mvreg.apply", "mvreg.merge", "mvreg.read", "mvreg.read_ctx", "mvreg.write", "ctx.*"],
              extra_as=["writes are generated through the API with the context of a read; no delivery-order assumption"]),
     "C10": P(["vclock"], ["vclock.*", "dot.*"], quick=1000, all_inputs=True,
